@@ -96,14 +96,16 @@ PROPS = {
         "open_statements": ["C05_readers_dead (a reader of a closed transaction yields nothing) is not yet stated; double Close is out of scope of the statement"],
     },
     "C13": {
-        "engines": [{"name": "memo", "quick": 6000, "thorough": 200000, "shards": 8}],
+        "engines": [{"name": "memo", "quick": 3000, "thorough": 120000, "shards": 8,
+                     "alt_build": {"tags": "verif coraza.no_memoize", "outname": "corr.nomemo", "env": "VERIF_NOMEMO_BIN"}}],
         "nontrivial": lambda l, v: "1" in l.split(" => ")[1].split(" keys=")[0],
-        "rule": "memo: 2-4 configurations drawn from 8 roles (@pm phrase list, regex key, data set with two contents under "
-                "one name, @pmFromFile with two contents under one file name in different root file systems, @restpath, @rx "
+        "rule": "memo: 2-4 configurations drawn from 9 roles (@pm phrase list, regex key, data set with two (or blank-vs-newline) contents under "
+                "one name, @pmFromFile with such contents under one file name in different root file systems, @validateSchema with two schemas under one file name, @restpath, @rx "
                 "with and without prefilter, ctl regex key, SecAuditLogRelevantStatus) over only two strings per case, so the "
                 "same text appears in different roles; each configuration is built alone (empty cache), then all together in "
                 "order, probed, the others closed, the last probed again. Compared: construction error/panic and probe answers "
-                "alone vs in history; every live cache key must parse as <kind>:<input> with one value type per kind. "
+                "alone vs in history; every live cache key must parse as <kind>:<input> with one value type per kind; every case is also "
+                "executed by the same harness built with -tags coraza.no_memoize (a coprocess) and the behaviour fields must be equal. "
                 "Non-trivial = some probe was blocked.",
         "modelled": "modelled and proved: the key function (kind tag + ':' + input) and the Do/Release protocol of "
                     "internal/memoize/sync.go at operation granularity; what each call site builds is a parameter. The "
@@ -111,7 +113,7 @@ PROPS = {
         "assumptions": ["SHA-256 digests of phrase lists and MD5 of schema files are treated as injective",
                         "this engine has no executable model of the operators involved; it is a monitor (alone == history) plus a "
                         "check that observed keys have the shape the theorem assumes"],
-        "open_statements": ["comparison with a build using -tags coraza.no_memoize is not wired into the check yet"],
+        "open_statements": [],
     },
     "C19": {
         "engines": [{"name": "audit", "quick": 9000, "thorough": 300000, "shards": 8},
